@@ -231,6 +231,18 @@ def top_groups(pattern):
     return out, t
 
 
+def top_layout(pattern):
+    """The top-level items of a pattern that is a concatenation: [group number or None].  A match is the
+    concatenation of the texts its top-level items matched, in order."""
+    tree, is_bytes, flags = parse(pattern)
+    out = []
+    for op, av in tree:
+        if op is sre_c.BRANCH:
+            raise Unsupported('top level of the pattern is an alternation')
+        out.append(av[0] if op is sre_c.SUBPATTERN and av[0] is not None else None)
+    return out
+
+
 def alternatives(subpattern_items, translator):
     """The alternatives of a group whose body is a single BRANCH (or a single alternative)."""
     items = list(subpattern_items)
